@@ -170,7 +170,7 @@ func init() {
 	register(&Property{
 		ID:    "C05",
 		Level: "exploration",
-		Rule: "the same PRNG chains (1-8 commands, ; && || |) wrapped in try {}, trypipe {}, and functions starting with `runmode try|trypipe function` (a quarter of those called twice in the same process), compared with reference models of the two modes; " +
+		Rule: "the same PRNG chains (1-8 commands, ; && || |) wrapped in try {}, trypipe {}, and functions starting with `runmode try|trypipe function` (a quarter of those called twice in the same process), and a quarter also as a block of one mode nested in a block or `runmode ... function` scope of the other mode (the innermost block's mode governs), compared with reference models of the two modes; " +
 			"a case in which a multi-stage ||-alternative is skipped is executed but not asserted; non-trivial = the chain contains || or a command fails before the end; distinct by (wrapper, program text)",
 		Assumptions: []string{"leaf commands out/err/return/<stdin>->set behave as documented", "tryerr/trypipeerr are not part of the statement and are not generated"},
 		Check:       chainCheck("C05"),
@@ -185,9 +185,19 @@ func init() {
 				if i%4 == 0 {
 					ws = append(ws, "fn-try-twice", "fn-trypipe-twice")
 				}
+				if i%4 == 1 {
+					// a block of one mode inside a scope of the other: the innermost block's mode governs
+					ws = append(ws, "try-in-fn-trypipe", "trypipe-in-fn-try", "try-in-trypipe", "trypipe-in-try")
+				}
 				for _, w := range ws {
 					mode := "try"
 					if strings.Contains(w, "trypipe") {
+						mode = "trypipe"
+					}
+					if strings.HasPrefix(w, "try-in-") {
+						mode = "try"
+					}
+					if strings.HasPrefix(w, "trypipe-in-") {
 						mode = "trypipe"
 					}
 					cases = append(cases, mkChainCase(fmt.Sprintf("c05-%d-%s", i, w), mode, w, units))
@@ -249,6 +259,14 @@ func mkChainCase(id, mode, wrapper string, units []Unit) *proto.Case {
 		block = chainPrelude + "function " + fname + " {\nrunmode try function\n" + body + "\n}\n" + fname
 	case "fn-trypipe":
 		block = chainPrelude + "function " + fname + " {\nrunmode trypipe function\n" + body + "\n}\n" + fname
+	case "try-in-fn-trypipe":
+		block = chainPrelude + "function " + fname + " {\nrunmode trypipe function\ntry {\n" + body + "\n}\n}\n" + fname
+	case "trypipe-in-fn-try":
+		block = chainPrelude + "function " + fname + " {\nrunmode try function\ntrypipe {\n" + body + "\n}\n}\n" + fname
+	case "try-in-trypipe":
+		block = chainPrelude + "trypipe {\ntry {\n" + body + "\n}\n}"
+	case "trypipe-in-try":
+		block = chainPrelude + "try {\ntrypipe {\n" + body + "\n}\n}"
 	case "function-twice", "fn-try-twice", "fn-trypipe-twice":
 		// the same function body executed twice in one process: the second run must behave like the first
 		rm := map[string]string{"function-twice": "", "fn-try-twice": "runmode try function\n", "fn-trypipe-twice": "runmode trypipe function\n"}[wrapper]
